@@ -2,7 +2,7 @@
    Statements only; proofs in Image/{KDTreeProofs,OctreeProofs,QuantizeProofs}.v. *)
 From Coq Require Import List NArith ZArith Bool.
 From SNT Require Import Base.Outcome Image.KDTree Image.Octree Image.Quantize
-     Image.KDTreeProofs Image.OctreeProofs Image.OctreeExact Image.QuantizeProofs Image.QuantizeExact.
+     Image.KDTreeProofs Image.OctreePath Image.OctreeProofs Image.OctreeExact Image.QuantizeProofs Image.QuantizeExact.
 Import ListNotations.
 
 (* Nearest-colour lookup: for EVERY palette (any length >= 1, duplicates, clustered
@@ -17,6 +17,12 @@ Proof. exact kd_nearest. Qed.
 Theorem C13_nearest_predicate : forall pal q i c,
   is_nearestb pal q i c = true <-> is_nearest pal q i c.
 Proof. exact is_nearestb_spec. Qed.
+
+(* OcTreePath as coded (r,g,b packed in one u32, `& 0x808080`, `<< 1 & 0xfefefe`, shifts by
+   21/14/7) is, for EVERY colour, the lane-wise bit path the octree theorems reason about
+   (the model's insert uses the packed form). *)
+Theorem C13_octree_path : forall c, rgb_ok c = true -> path_packed c = path_of c.
+Proof. exact path_packed_eq. Qed.
 
 (* Octree pipeline of ColorPalette::from_image: for every non-empty list of byte
    colours and every requested size, insertion never panics, prune_until terminates
